@@ -338,6 +338,10 @@ pub fn dfs_all(store: &LpgStore) -> Vec<NodeId> {
 
         dfs_with_visitor(store, node_id, |event| -> Control<()> {
             match event {
+                // A node finished by an earlier tree must not be walked again
+                TraversalEvent::TreeEdge { target, .. } if visited.contains(&target) => {
+                    return Control::Prune;
+                }
                 TraversalEvent::Discover(n) => {
                     visited.insert(n);
                 }
